@@ -9,6 +9,64 @@ namespace Claripy.Solver
 
 variable {R : Con → Prop} {RE : Exp → Prop} {E : Env}
 
+/-! ### iteration order of sets: whatever the oracle says, `reorderBy` is a permutation -/
+
+theorem reorderFront_spec {α : Type} [BEq α] [LawfulBEq α] (mt : α → List Nat → Bool) (l : List α) :
+    ∀ (p : List (List Nat)) (acc : List α), (∀ x ∈ acc, x ∈ l) → acc.Nodup →
+      (∀ x ∈ reorderFront mt l p acc, x ∈ l) ∧ (reorderFront mt l p acc).Nodup := by
+  intro p
+  induction p with
+  | nil => intro acc h1 h2; exact ⟨h1, h2⟩
+  | cons k ks ih =>
+    intro acc h1 h2
+    unfold reorderFront
+    simp only [List.foldl_cons]
+    cases hf : l.find? (fun x => mt x k && !acc.contains x) with
+    | none => exact ih acc h1 h2
+    | some x =>
+      have hx := List.find?_some hf
+      have hxl := List.mem_of_find?_eq_some hf
+      simp only [Bool.and_eq_true, Bool.not_eq_true', List.contains_eq_mem, decide_eq_false_iff_not] at hx
+      refine ih (acc ++ [x]) ?_ ?_
+      · intro y hy
+        rcases List.mem_append.mp hy with hy | hy
+        · exact h1 y hy
+        · simp only [List.mem_singleton] at hy; subst hy; exact hxl
+      · rw [List.nodup_append]
+        refine ⟨h2, by simp, ?_⟩
+        intro a ha b hb
+        simp only [List.mem_singleton] at hb
+        subst hb
+        intro e; subst e; exact hx.2 ha
+
+theorem mem_reorderBy {α : Type} [BEq α] [LawfulBEq α] (mt : α → List Nat → Bool) (p : List (List Nat)) (l : List α) (x : α) :
+    x ∈ reorderBy mt p l ↔ x ∈ l := by
+  obtain ⟨h1, _⟩ := reorderFront_spec mt l p [] (fun _ h => by cases h) List.nodup_nil
+  unfold reorderBy
+  generalize reorderFront mt l p [] = front at h1
+  simp only [List.mem_append, List.mem_filter]
+  constructor
+  · rintro (h | h)
+    · exact h1 x h
+    · exact h.1
+  · intro hx
+    by_cases hf : x ∈ front
+    · exact Or.inl hf
+    · exact Or.inr ⟨hx, by simpa using hf⟩
+
+theorem nodup_reorderBy {α : Type} [BEq α] [LawfulBEq α] (mt : α → List Nat → Bool) (p : List (List Nat)) (l : List α)
+    (hl : l.Nodup) : (reorderBy mt p l).Nodup := by
+  obtain ⟨_, h2⟩ := reorderFront_spec mt l p [] (fun _ h => by cases h) List.nodup_nil
+  unfold reorderBy
+  generalize reorderFront mt l p [] = front at h2
+  rw [List.nodup_append]
+  refine ⟨h2, hl.sublist List.filter_sublist, ?_⟩
+  intro a ha b hb e
+  subst e
+  have := (List.mem_filter.mp hb).2
+  simp only [Bool.not_eq_true', List.contains_eq_mem, decide_eq_false_iff_not] at this
+  exact this ha
+
 /-! ### `_solver_list`, `_solvers_for_variables` -/
 
 theorem mem_solverList (c : Comp) (j : Nat) : j ∈ c.solverList ↔ ∃ v, (v, j) ∈ c.solvers := by
@@ -94,6 +152,18 @@ theorem CInv.child_vars {U : List Con} {Us : List (List Con)} {s : CSt} (h : CIn
 theorem CInv.child_models {U : List Con} {Us : List (List Con)} {s : CSt} (h : CInv R RE E U Us s) {j : Nat}
     (hj : j < s.w.fes.length) (a : Asg) : Models (s.child j).constraints a ↔ Models (Us.getD j []) a :=
   (h.kids.each j hj).base.models_iff a
+
+/-- asking the oracle for an iteration order only moves the event counter -/
+theorem TInvS.set_tick {Us : List (List Con)} {w : World} (h : TInvS R RE E Us w) (t : Nat) : TInvS R RE E Us { w with tick := t } :=
+  ⟨h.len, fun i hi => (h.each i hi).set_tick t, h.share⟩
+
+theorem CInv.set_tick {U : List Con} {Us : List (List Con)} {s : CSt} (h : CInv R RE E U Us s) (t : Nat) :
+    CInv R RE E U Us { s with w := { s.w with tick := t } } :=
+  ⟨h.kids.set_tick t, h.reuse, h.keysOk, h.exact, h.nodup, h.map, h.cover, h.sem, h.unsatOk, h.checked⟩
+
+theorem orderOracle_run {α : Type} [BEq α] (E : Env) (mt : α → List Nat → Bool) (keys : List (List Nat)) (l : List α) (s : CSt) :
+    orderOracle E mt keys l s =
+      (.ok (reorderBy mt (E.pick keys keys.length s.w.tick) l), { s with w := { s.w with tick := s.w.tick + 1 } }) := rfl
 
 /-- the empty composite -/
 theorem cinv_init (R : Con → Prop) (RE : Exp → Prop) (E : Env) (track : Bool) :
